@@ -18,7 +18,8 @@ Inductive op :=
 | Track (b : Z)                   (* segment.track(beam b) *)
 | Read (d : nat)                  (* screen.reading / bpm.reading *)
 | CloneTrack (b : Z)              (* segment.clone().track(beam b): must not touch the original's diagnostics *)
-| Optim (k : nat) (b : Z).        (* build an optimised copy (merged maps, ...) and track b through it: original untouched *)
+| Optim (k : nat) (b : Z).        (* build an optimised lattice (merged maps, ...) and track b through it: parameters untouched; the
+                                     optimised lattice SHARES the retained element objects, so active diagnostics record this beam too *)
 
 Inductive out := OTrack (t : token) | ORead (d : nat) (r : option token) | ONone.
 
@@ -59,7 +60,9 @@ Definition step (s : state) (o : op) : state * out :=
               (mkst (params s) (act s) (recd s) (set_nth (cache s) d r), ORead d r)
     end
   | CloneTrack b => (s, OTrack (tok s b))
-  | Optim k b => (s, ONone)   (* the optimised copy's own result is C08's business; only the original's state matters here *)
+  | Optim k b =>   (* the optimised lattice's own result is C08's business (ONone); diagnostics are shared objects and record *)
+    let t := tok s b in
+    (mkst (params s) (act s) (record (act s) (recd s) t) (drop_cache (act s) (cache s)), ONone)
   end.
 
 Fixpoint run (s : state) (ops : list op) : state * list out :=
